@@ -586,7 +586,7 @@ func pruneArray(v any) any {
 	}
 
 	var n bool
-	var r []any
+	r := []any{}
 	for i, va := range a {
 		if n {
 			if va != nil {
